@@ -81,6 +81,20 @@ def unescape (x : Cps) : Cps := unescapeGo false x
 /-- `helper.normalize` / `Base._normalize` (helper.py:44-61) -/
 def normalize (x : Cps) : Cps := lower (unescape x)
 
+/-- may stand unescaped anywhere in an identifier and is no hex digit: `[g-zG-Z_\u0080-\U0010ffff]` (selector.py `_unneeded_escape`) -/
+def isNameCp (c : Nat) : Bool := (103 ≤ c && c ≤ 122) || (71 ≤ c && c ≤ 90) || c == 95 || 128 ≤ c
+
+/-- `_escape(unescape, value)` of selector.py `_normalize_name`: `re.sub(r'\\(.)', …, flags=DOTALL)` scans pairs; the
+backslash is dropped only before a name character (flag: an undecided backslash precedes) -/
+def unescNameGo : Bool → Cps → Cps
+  | false, [] => []
+  | true, [] => [92]
+  | false, c :: t => if c == 92 then unescNameGo true t else c :: unescNameGo false t
+  | true, d :: t => if isNameCp d then d :: unescNameGo false t else 92 :: d :: unescNameGo false t
+
+/-- selector.py `_normalize_name`: pseudo names are lower-cased and lose only unneeded backslashes -/
+def normalizeName (x : Cps) : Cps := lower (unescNameGo false x)
+
 /-- `value.replace('\\' + q, q)` (flag: an undecided backslash precedes) -/
 def unquoteGo (q : Nat) : Bool → Cps → Cps
   | false, [] => []
@@ -407,7 +421,7 @@ def cbNsPrefix (ns : NsMap) (st : St) (t : Tok) : M St := do              -- :18
 
 def cbPseudo (ns : NsMap) (st : St) (t : Tok) : M St := do                -- :205-242
   let context ← top st
-  let val := normalize t.val
+  let val := normalizeName t.val
   let typ := t.typ.name
   if has kwPseudo st then
     let typ := if elemOf val legacyPseudoElements then tyPseudoElement else typ
@@ -519,7 +533,9 @@ def cbChar (ns : NsMap) (st : St) (t : Tok) : M St := do                  -- :36
   else if val == [41] && isPseudoCtx context && c_expression == st.expected then  -- :404-415
     let st ← append ns st (.str val) tyFuncEnd
     let st := { st with ctx := st.ctx.drop 1 }
-    if context == tyPseudoElement then pure { st with expected := c_combinator }
+    let below ← top st                                                    -- `self.context[-1]` after the pop
+    if below == cxNegation then pure { st with expected := c_negationend }
+    else if context == tyPseudoElement then pure { st with expected := c_combinator }
     else pure { st with expected := eSSSC }
   else if val == [91] && has kwAttrib st then                             -- :418-422
     let st ← append ns st (.str val) tyAttrStart
@@ -535,7 +551,7 @@ def cbChar (ns : NsMap) (st : St) (t : Tok) : M St := do                  -- :36
   else fail st                                                            -- :437-449 (',' and anything else)
 
 def cbNegation (ns : NsMap) (st : St) (t : Tok) : M St := do              -- :451-461
-  let val := normalize t.val
+  let val := normalizeName t.val
   if has kwNegation st then
     let st := { st with ctx := cxNegation :: st.ctx }
     let st ← append ns st (.str val) tyNegStart
